@@ -170,7 +170,7 @@ def run(ctx):
         "model_mismatches": len(model_bad),
         "property_failures_on_impl": len(prop_bad),
         "counts": counts,
-        "exhaustive": meta.get("exhaustive"),
+        "exhaustive_parts": meta.get("exhaustive"),
         "distribution": meta.get("distribution"),
         "e2e": meta.get("e2e"),
         "samples": [meta.get("samples")],
